@@ -185,14 +185,14 @@ class TdMpsJob(object):
         os.makedirs(self.dump_dir, exist_ok=True)
         file_path = os.path.join(self.dump_dir, self.job_name + ".npz")
         bak_path = file_path + ".bak"
-        if os.path.exists(file_path):
-            # in case of shutdown while dumping
-            if os.path.exists(bak_path):
-                os.remove(bak_path)
-            os.rename(file_path, bak_path)
+        # in case of shutdown while dumping: write to a temporary name and replace the result file
+        # atomically, so that a complete result file of the current or the previous step always exists
+        tmp_path = file_path + ".tmp"
+        with open(tmp_path, "wb") as f:
+            np.savez(f, **d)
+        os.replace(tmp_path, file_path)
 
-        np.savez(file_path, **d)
-
+        # backup left by earlier versions of the protocol
         if os.path.exists(bak_path):
             os.remove(bak_path)
 
